@@ -20,6 +20,7 @@ From Soy Require Import Model.Bytes Model.Num Model.Values Model.Outcome Model.A
   Spec.Wf Proofs.CheckerProofs Proofs.CheckerInterpProofs.
 From Coq Require Import Permutation.
 From Soy Require Import Model.Compile Proofs.CheckerCompileTie.
+From Soy Require Import Model.CheckerRun Proofs.CheckerExcuseProofs Proofs.CheckerExcuseRel.
 Open Scope N_scope.
 
 (* ------------------------------------------------------------------ *)
@@ -62,21 +63,64 @@ Theorem C07_checker_models_agree : forall ko0 reg,
 Proof. exact check_data_refs_models_agree. Qed.
 Print Assumptions C07_checker_models_agree.
 
+(* the form the harness evaluates on every compiled registry (both verdicts, and the hypothesis) *)
+Theorem C07_checker_models_agree_run : forall reg,
+  registry_maps_sorted reg = true -> check_registry_c13 reg = check_registry reg.
+Proof. exact check_registry_c13_agrees. Qed.
+
 (* ------------------------------------------------------------------ *)
 (* 2. static scoping is sound for the scope stack *)
 
 (* DESIGN.md states: check b = Ok -> supplies data (params t) -> unbound_lookups (render b t data) = 0.
-   Read with the interpreter's counter (EVERY scope.lookup miss) that statement is false:
-   a caller may omit an optional param of its callee, and data="$e" passes a map the
-   checker cannot see; the callee then looks up a DECLARED param that is absent
-   ([C07_declared_param_may_be_absent] below).  Such a name is bound statically (by
-   the declaration), so this is not the defect the property talks about; but the
-   counter cannot tell the two apart.  The theorem therefore covers the bundles in
-   which every call passes every param its callee declares ([calls_total]: explicitly,
-   or through data="all" for params the caller declares; no data="$e").  For the
-   other bundles the harness checks that every missed key is a declared param.
-   Hence the name _partial. *)
-Theorem C07_accepted_no_unbound_lookup_partial :
+   The interpreter's counter [rr_unbound] counts EVERY scope.lookup miss.  A caller may omit an optional
+   param of its callee, and data="$e" passes a map the checker cannot see; the callee then looks up a
+   DECLARED param that is absent ([C07_declared_param_may_be_absent] below).  Such a name is bound
+   statically (by the declaration): it is not a name that nothing binds.  What a callee may assume is
+   exactly this: the variables of its enclosing {let}s and loops and the counters of its enclosing loops
+   are bound; each of its declared params is either supplied or reads as undefined.
+
+   The full statement is therefore about [render_x] (Model/CheckerRun.v): [render] with the counter that
+   does not count the miss of a declared param of the template being executed (the params of the entry
+   template at the start, those of the callee across every {call}).  For EVERY accepted registry whose
+   trees have the parser's shape -- calls omitting optional params, data="all", data="$e", $ij,
+   recursion; any data, any fuel, any writer fault; on every outcome -- that counter is 0, and
+   [render_x] is [render] in every other observable (so no lookup of [render] misses on anything but a
+   declared param of the template it is executing). *)
+Theorem C07_accepted_no_unbound_lookup :
+  forall cf fuel name data_id data cl bl first_id,
+  check_registry (c_reg cf) = Accept ->
+  registry_shaped (c_reg cf) = true ->
+  let rx := render_x cf fuel name data_id data cl bl first_id in
+  let r := render cf fuel name data_id data cl bl first_id in
+  rr_unbound rx = 0%nat
+  /\ rr_outcome rx = rr_outcome r /\ rr_writes rx = rr_writes r /\ rr_file rx = rr_file r /\ rr_line rx = rr_line r
+  /\ rr_shared_writes rx = rr_shared_writes r.
+Proof. exact accepted_no_unbound_lookup_full. Qed.
+Print Assumptions C07_accepted_no_unbound_lookup.
+
+(* the refined counter is the counter minus the excused misses: for every registry (accepted or not) *)
+Theorem C07_render_x_is_render : forall cf fuel name data_id data cl bl first_id,
+  let rx := render_x cf fuel name data_id data cl bl first_id in
+  let r := render cf fuel name data_id data cl bl first_id in
+  rr_outcome rx = rr_outcome r /\ rr_writes rx = rr_writes r /\ rr_file rx = rr_file r /\ rr_line rx = rr_line r
+  /\ rr_shared_writes rx = rr_shared_writes r /\ (rr_unbound rx <= rr_unbound r)%nat.
+Proof. exact render_x_is_render. Qed.
+Print Assumptions C07_render_x_is_render.
+
+(* the same starting from the files Bundle.Compile accepted *)
+Theorem C07_accepted_bundle_no_unbound_lookup :
+  forall fs cf fuel name data_id data cl bl first_id,
+  compile_check fs = Accept ->
+  (forall ts, add_files [] fs = AddOk ts -> c_reg cf = registry_of ts fs) ->
+  registry_shaped (c_reg cf) = true ->
+  rr_unbound (render_x cf fuel name data_id data cl bl first_id) = 0%nat.
+Proof. exact accepted_bundle_no_unbound_name. Qed.
+Print Assumptions C07_accepted_bundle_no_unbound_lookup.
+
+(* When, moreover, every call passes every param its callee declares ([calls_total]: explicitly, or through
+   data="all" for params the caller declares; no data="$e") and the data supplies every declared param of
+   the entry template, no lookup misses at all -- not even on a declared param: the unrefined counter is 0. *)
+Theorem C07_all_params_supplied_no_miss :
   forall cf fuel name t data_id data cl bl first_id,
   check_registry (c_reg cf) = Accept ->
   registry_shaped (c_reg cf) = true ->
@@ -85,10 +129,9 @@ Theorem C07_accepted_no_unbound_lookup_partial :
   (forall p, In p (map fst (t_params t)) -> assoc_s p data <> None) ->       (* all declared params supplied *)
   rr_unbound (render cf fuel name data_id data cl bl first_id) = 0%nat.       (* on every outcome, for every fuel *)
 Proof. exact accepted_no_unbound_lookup. Qed.
-Print Assumptions C07_accepted_no_unbound_lookup_partial.
+Print Assumptions C07_all_params_supplied_no_miss.
 
-(* the same starting from the files Bundle.Compile accepted *)
-Theorem C07_accepted_bundle_no_unbound_lookup_partial :
+Theorem C07_bundle_all_params_supplied_no_miss :
   forall fs cf fuel name t data_id data cl bl first_id,
   compile_check fs = Accept ->
   (forall ts, add_files [] fs = AddOk ts -> c_reg cf = registry_of ts fs) ->
@@ -98,7 +141,7 @@ Theorem C07_accepted_bundle_no_unbound_lookup_partial :
   (forall p, In p (map fst (t_params t)) -> assoc_s p data <> None) ->
   rr_unbound (render cf fuel name data_id data cl bl first_id) = 0%nat.
 Proof. exact accepted_bundle_no_unbound_lookup. Qed.
-Print Assumptions C07_accepted_bundle_no_unbound_lookup_partial.
+Print Assumptions C07_bundle_all_params_supplied_no_miss.
 
 (* ------------------------------------------------------------------ *)
 (* 3. non-vacuity *)
@@ -161,7 +204,8 @@ Example C07_models_agree_nonvacuous :
   let lit := NMapLit 0 [(b "a", ref "p"); (b "b", NInt 0 1)] in
   let reg body := c_reg (ex_cfg body) in
   let c13 body := first_failure (check_template (sorted_after (@rev bstr)) (find_template (r_templates (reg body)))) (r_templates (reg body)) in
-  forallb (fun t => maps_sorted (t_node t)) (r_templates (reg [pr lit])) = true
+  registry_maps_sorted (reg [pr lit]) = true /\ check_registry_c13 (reg [pr lit]) = Accept
+  /\ forallb (fun t => maps_sorted (t_node t)) (r_templates (reg [pr lit])) = true
   /\ c13 [pr lit] = None /\ check_registry (reg [pr lit]) = Accept
   /\ verdict_of_failure (c13 [pr lit; pr (ref "zz")]) = Reject RUnbound /\ check_registry (reg [pr lit; pr (ref "zz")]) = Reject RUnbound
   /\ maps_sorted (NMapLit 0 [(b "b", NInt 0 1); (b "a", NInt 0 2)]) = false.
@@ -171,6 +215,18 @@ Proof. vm_compute. repeat split; reflexivity. Qed.
 Example C07_param_then_same_named_let :
   compile_check [ex_file (pr (ref "p") :: NLetValue 0 (b "p") (NInt 0 1) :: [pr (ref "p")])] = Accept.
 Proof. vm_compute. reflexivity. Qed.
+
+(* the refined counter is live: on a bundle the checker rejects (a reference to a name that nothing binds) it counts
+   the miss; and it excuses only the params of the template being executed (q is declared by ns.u, not by ns.t) *)
+Example C07_refined_counter_counts :
+  let cfx body := ex_cfg body in
+  check_registry (c_reg (cfx [pr (ref "zz"); pr (ref "p")])) = Reject RUnbound
+  /\ rr_unbound (render_x (cfx [pr (ref "zz"); pr (ref "p")]) 100 (b "ns.t") 7 [(b "p", VInt 5)] None None 100) = 1%nat
+  /\ check_registry (c_reg (cfx [pr (ref "q"); pr (ref "p")])) = Reject RUnbound
+  /\ rr_unbound (render_x (cfx [pr (ref "q"); pr (ref "p")]) 100 (b "ns.t") 7 [(b "p", VInt 5)] None None 100) = 1%nat
+  /\ rr_unbound (render_x (cfx [pr (ref "p")]) 100 (b "ns.t") 7 [] None None 100) = 0%nat
+  /\ rr_unbound (render (cfx [pr (ref "p")]) 100 (b "ns.t") 7 [] None None 100) = 1%nat.
+Proof. vm_compute. repeat split; reflexivity. Qed.
 
 (* why [calls_total] is needed: an accepted bundle whose caller omits an optional param of the callee;
    the callee looks up its declared param q and misses (the counter counts it) *)
@@ -185,5 +241,6 @@ Example C07_declared_param_may_be_absent :
   let reg := match add_files [] [ex_opt_file] with AddOk ts => registry_of ts [ex_opt_file] | AddRej _ => empty_registry end in
   let cf := {| c_reg := reg; c_ij := None; c_oblig := []; c_msgs := None |} in
   compile_check [ex_opt_file] = Accept /\ registry_shaped reg = true /\ calls_total reg = false
-  /\ rr_unbound (render cf 100 (b "ns.t") 7 [(b "p", VInt 5)] None None 100) = 1%nat.
+  /\ rr_unbound (render cf 100 (b "ns.t") 7 [(b "p", VInt 5)] None None 100) = 1%nat
+  /\ rr_unbound (render_x cf 100 (b "ns.t") 7 [(b "p", VInt 5)] None None 100) = 0%nat.
 Proof. vm_compute. repeat split; reflexivity. Qed.
